@@ -47,6 +47,15 @@ def serialize_both(cls: str, seq, preset, fs: int):
     return out
 
 
+def flat_both(cls: str, seq, preset, fs: int):
+    out = []
+    for api in ("generic", "rdflib"):
+        opts = DR.make_options(cls, preset, fs, True, generalized=False, rdf_star=False)
+        write = DR.g_write if api == "generic" else DR.r_write
+        out.append(write(seq, cls, opts, "flat_to_frames"))
+    return out
+
+
 def parse_all(data: bytes) -> dict:
     res = {}
     for api in ("generic", "rdflib"):
@@ -59,6 +68,14 @@ def parse_all(data: bytes) -> dict:
     return res
 
 
+def _fold(stmts):
+    """rdflib containers are sets under rdflib's own term equality, which ignores the case of
+    language tags: compare container contents modulo that."""
+    def f(t):
+        return ("L", t[1], t[2].lower(), t[3]) if t[0] == "L" and t[2] else t
+    return {tuple(f(t) for t in st) for st in stmts}
+
+
 def agree(res: dict) -> list[tuple[str, str]]:
     fails = []
     gf = res[("generic", "flat")]
@@ -68,7 +85,7 @@ def agree(res: dict) -> list[tuple[str, str]]:
         if g != gf:
             fails.append((f"generic-{reader}", f"generic flat gives {gf} but generic {reader} gives {g}"))
         r = res[("rdflib", reader)]
-        same = r[0] == rf[0] and (r[0] != "ok" or set(r[1]) == set(rf[1]))
+        same = r[0] == rf[0] and (r[0] != "ok" or _fold(r[1]) == _fold(rf[1]))
         if not same:
             fails.append((f"rdflib-{reader}", f"rdflib flat gives {rf} but rdflib {reader} gives {r}"))
     if (gf[0] == "ok") != (rf[0] == "ok") or (gf[0] == "ok" and gf[1] != rf[1]):
@@ -81,6 +98,11 @@ def run_case(case: dict) -> list[tuple[str, str]]:
     alpha = RR.alphabet(case["scope"], cls)
     seq = [alpha[i] for i in case["seq"]]
     fails = []
+    if case["kind"] == "parse":
+        # bytes written by the generic serializer, parsed by both integrations
+        data = DR.g_write(seq, cls, DR.make_options(cls, tuple(case["preset"]), case["frame_size"],
+                                                    True, generalized=False, rdf_star=False))
+        return agree(parse_all(data))
     if case["kind"] == "pyjelly":
         preset = tuple(case["preset"])
         try:
@@ -90,6 +112,16 @@ def run_case(case: dict) -> list[tuple[str, str]]:
         if gb != rb:
             fails.append(("serializers-differ", f"generic wrote {len(gb)} bytes {gb.hex()}, "
                                                 f"rdflib wrote {len(rb)} bytes {rb.hex()}"))
+        if cls != "graph":
+            # the flat entry points (which build their streams themselves) must agree as well
+            try:
+                fg, fr = flat_both(cls, seq, preset, case["frame_size"])
+                if fg != fr or fg != gb:
+                    fails.append(("flat-entry-differs",
+                                  f"flat_stream_to_frames: generic {len(fg)} bytes, rdflib "
+                                  f"{len(fr)} bytes, stream_frames {len(gb)} bytes"))
+            except Exception as e:  # noqa: BLE001
+                fails.append(("flat-entry-raised", f"{type(e).__name__}: {e}"))
         fails += agree(parse_all(gb))
         if gb != rb:
             fails += agree(parse_all(rb))
@@ -154,7 +186,7 @@ def shard(job) -> dict:
         if not all(AL.fits(st, preset) for st in seq):
             acc.counters["out_of_domain"] += 1
             continue
-        if kind == "pyjelly":
+        if kind in ("pyjelly", "parse"):
             for fs in (1, 250):
                 case = {"kind": kind, "scope": scope, "cls": cls, "preset": list(preset),
                         "frame_size": fs, "seq": list(sym)}
@@ -194,11 +226,14 @@ def run(ctx) -> None:
     L = 3 if ctx.quick else 4
     jobs = []
     n = AL.n_sequences(6, L)
-    for scope in RR.R_SCOPES:
+    for scope, sc in RR.R_SCOPES.items():
         for cls in DR.CLASSES:
             for pi in range(4):
+                if sc.get("restricted") and pi:
+                    continue
                 for lo, hi in pool.split_range(n, 1 if ctx.quick else 8):
-                    jobs.append(("pyjelly", scope, cls, pi, L, lo, hi))
+                    jobs.append(("parse" if sc.get("parse_only") else "pyjelly", scope, cls, pi, L,
+                                 lo, hi))
             LR = 1 if ctx.quick else 2
             for pi in (1, 3):
                 jobs.append(("refenc", scope, cls, pi, LR, 0, AL.n_sequences(6, LR)))
